@@ -28,9 +28,9 @@ LEVEL_TEXT = ("All digraphs on up to 4 statements (65536 for n=4) are crossed wi
 LEVEL_NOTE = "Trusted: the reference graph checker (DFS cycle test, per-phase id sets)."
 
 EXTRA = ["none", "dangling", "cross"]
-SWITCH = ["none", "existing", "missing", "missing-prefix", "missing-joined", "missing-empty"]
+SWITCH = ["none", "existing", "missing", "missing-prefix", "missing-joined", "missing-empty", "missing-then-existing"]
 MISSING_TARGETS = {"missing": "zz", "missing-prefix": "p", "missing-joined": "p0, p1", "missing-empty": ""}
-FLAGS = ["none", "one", "two-in-one-phase", "two-identical-in-one-phase", "one-per-phase"]
+FLAGS = ["none", "one", "two-in-one-phase", "two-identical-in-one-phase", "one-per-phase", "two-one-by-call"]
 
 
 def ref_wellformed(n, edges, extras, switch, flags):
@@ -56,7 +56,7 @@ def ref_wellformed(n, edges, extras, switch, flags):
         return False, "cycle"
     if switch.startswith("missing"):
         return False, "missing-phase"
-    if flags in ("two-in-one-phase", "two-identical-in-one-phase"):
+    if flags in ("two-in-one-phase", "two-identical-in-one-phase", "two-one-by-call"):
         return False, "flag-redefined"
     return True, "well-formed"
 
@@ -76,11 +76,19 @@ def build_method(n, edges, extras, switch, flags, placement="first"):
             d.append("nowhere")
         elif extras[i] == "cross":
             d.append("q0")
-        if i == n - 1 and switch != "none":
-            stmts.append(SwitchPhase(cn if switch == "existing" else MISSING_TARGETS[switch], id="s%d" % i,
-                                     depends_on=d))
+        if i == n - 2 and switch == "missing-then-existing":
+            # two switch statements in one phase (the ordinary if/else switch): the dangling one is not the last
+            stmts.append(SwitchPhase("zz", id="s%d" % i, depends_on=d))
+        elif i == n - 1 and switch != "none":
+            stmts.append(SwitchPhase(cn if switch in ("existing", "missing-then-existing") else MISSING_TARGETS[switch],
+                                     id="s%d" % i, depends_on=d))
         elif i == 0 and flags != "none":
             stmts.append(Assign(id="s0", assignee="<cond>c", assignee_subscript=(), expression=True, depends_on=d))
+        elif i == 1 and flags == "two-one-by-call":
+            from dagrt.language import AssignFunctionCall
+            from pymbolic.primitives import Variable
+            stmts.append(AssignFunctionCall(id="s1", assignees=("<cond>c",), function_id="<func>f",
+                                            parameters=(Variable("<t>"),), depends_on=d))
         elif i == 1 and flags in ("two-in-one-phase", "two-identical-in-one-phase"):
             stmts.append(Assign(id="s1", assignee="<cond>c", assignee_subscript=(),
                                 expression=(False if flags == "two-in-one-phase" else True), depends_on=d))
@@ -95,15 +103,14 @@ def build_method(n, edges, extras, switch, flags, placement="first"):
     return DAGCode(phases, xn)
 
 
+TWO_FLAGS = ("two-in-one-phase", "two-identical-in-one-phase", "two-one-by-call")
+
+
 def feasible(n, switch, flags):
-    if flags in ("two-in-one-phase", "two-identical-in-one-phase") and n < 2:
-        return False
-    # the switch statement replaces the last statement; flags use s0 (and s1)
-    if switch != "none" and flags != "none" and n < 2:
-        return False
-    if switch != "none" and flags in ("two-in-one-phase", "two-identical-in-one-phase") and n < 3:
-        return False
-    return True
+    # the switch statement(s) replace the last (two) statement(s); flags use s0 (and s1)
+    need = {"none": 0, "missing-then-existing": 2}.get(switch, 1)
+    need += 2 if flags in TWO_FLAGS else (1 if flags in ("one", "one-per-phase") else 0)
+    return n >= max(need, 1)
 
 
 def check_method(n, edges, extras, switch, flags, consumers=True, fortran=False, placement="first"):
@@ -210,7 +217,7 @@ def cases(tier):
 
 
 def bounds(tier):
-    return {"n<=3": "all 2^(n*n) digraphs x 3^n extra-edge tuples x 6 switch targets (none, existing, 4 missing ones incl. a prefix of / the joined / the empty name) x 5 flag patterns",
+    return {"n<=3": "all 2^(n*n) digraphs x 3^n extra-edge tuples x 7 switch patterns (none, existing, 4 missing ones incl. a prefix of / the joined / the empty name, a missing one followed by an existing one) x 6 flag patterns (incl. a flag written by an assignment and by a call statement)",
             "n=4": "all 65536 digraphs x " + ("(no extras; switch/flags on every 4th graph)" if tier == "quick" else
                                               "3 switch targets x 4 flag patterns + one dangling/cross edge"),
             "placement": "n<=3: the examined phase first / last in the phase dict / last in the dict and by name (the other phase "
